@@ -107,13 +107,22 @@ def run_registry(pid, spec, tier, seed, replay=None):
         skip = 0
         while skip < len(part):
             prog = os.path.join(d, "rprog%d" % k)
-            p = subprocess.run([binary, "-test.run", "TestRegistry", "-test.timeout", "0"],
-                               env=dict(os.environ, VERIF_REGISTRY="1", VERIF_SCENARIOS=scn, VERIF_TRACES=trc, VERIF_PROGRESS=prog,
-                                        VERIF_SKIP=str(skip), GOTRACEBACK="all"),
-                               stdout=subprocess.PIPE, stderr=subprocess.STDOUT, text=True)
+            out, rc, stalled = orch.run_child([binary, "-test.run", "TestRegistry", "-test.timeout", "0"],
+                                              dict(os.environ, VERIF_REGISTRY="1", VERIF_SCENARIOS=scn, VERIF_TRACES=trc, VERIF_PROGRESS=prog,
+                                                   VERIF_SKIP=str(skip), GOTRACEBACK="all"), prog, 1500, os.path.join(d, "rout%d.txt" % k))
+
+            class P:
+                pass
+            p = P()
+            p.returncode, p.stdout = rc, out
             st = open(prog).read().split() if os.path.exists(prog) else []
             if p.returncode == 0 and st and st[0] == "done":
                 break
+            if stalled and st and st[0] != "done":
+                crashes.append({"scn": int(st[0]), "name": part[int(st[0])]["name"], "rc": rc, "banner": orch.STALL, "timeout": False, "stalled": True,
+                                "output": orch.stall_digest(out), "scenario": part[int(st[0])]})
+                skip = int(st[0]) + 1
+                continue
             if not st or st[0] == "done":
                 raise orch.Infra("registry harness failed without progress information:\n" + p.stdout[-1500:])
             import re
@@ -124,23 +133,42 @@ def run_registry(pid, spec, tier, seed, replay=None):
         return trc
     with cf.ThreadPoolExecutor(max_workers=shards) as ex:
         traces = list(ex.map(one, range(shards)))
+    conf_future = None
+    if not replay:
+        # strict conformance of the recorded histories to the design model (spec/RegistryTrace.tla), next to the monitor
+        from . import regconf
+        conf_pool = cf.ThreadPoolExecutor(max_workers=1)
+        conf_future = conf_pool.submit(regconf.check, list(traces), "%s-%s" % (pid, tier), 24 if tier == "quick" else 0)
     viols, lines, states = orch.validate(traces, spec="RegistryMon")
     n, distinct = orch.count_traces(traces)
     cov = {"states": states, "transitions": states, "traces_validated_against_impl": n, "evaluations": n, "distinct_nontrivial": distinct,
            "rule": "one evaluation = one registry history (tunnels opened/ended/broken, routed RPCs, readiness calls, gated sub-steps) executed "
                    "against the real handler and validated by TLC against spec/RegistryMon.tla; distinct by hash of (step, result) sequence",
            "exhaustive": False, "trace_events": lines, "scenarios": len(scenarios)}
-    mc = orch.tlc(os.path.join(orch.SPEC, "MC_Registry.tla"), os.path.join(orch.SPEC, "Registry_quick.cfg" if tier == "quick" else "Registry.cfg"), workers=8, heap="6g")
-    if "No error has been found" in mc.stdout:
-        st = orch.tlc_stats(mc.stdout)
-        cov["states"] += st[0]
-        cov["transitions"] += st[1]
-        cov["registry_model_states"] = st[0]
-    else:
-        import re
-        m = re.search(r"Invariant (\w+) is violated", mc.stdout)
-        viols.append({"formula": "C12_Model_" + (m.group(1) if m else "error"), "detail": "", "scenario": {"name": "Registry.tla"},
-                      "trace_file": None, "trace": None, "line": 0, "k": None})
+    cov["registry_model_states"] = 0
+    for cfgname in (["Registry_q2"] if tier == "quick" else ["Registry_q2", "Registry_quick", "Registry"]):
+        mc = orch.tlc(os.path.join(orch.SPEC, "MC_Registry.tla"), os.path.join(orch.SPEC, cfgname + ".cfg"), workers=8, heap="6g", timeout=3000)
+        if "No error has been found" in mc.stdout:
+            st = orch.tlc_stats(mc.stdout)
+            cov["states"] += st[0]
+            cov["transitions"] += st[1]
+            cov["registry_model_states"] += st[0]
+        else:
+            import re
+            m = re.search(r"Invariant (\w+) is violated", mc.stdout)
+            viols.append({"formula": "C12_Model_" + (m.group(1) if m else "error"), "detail": cfgname, "scenario": {"name": "Registry.tla " + cfgname},
+                          "trace_file": None, "trace": None, "line": 0, "k": None})
+    if conf_future is not None:
+        try:
+            conf = conf_future.result()
+        except orch.Infra as e:
+            conf = {"error": str(e)[:300]}
+        conf_pool.shutdown()
+        cov["registry_conformance"] = conf
+        cov["states"] += conf.get("states", 0)
+        if conf.get("rejected") or conf.get("error"):
+            print("NOTE model-divergence: %s of %s registry histories are not explained by spec/Registry.tla (%s)" % (
+                conf.get("rejected"), conf.get("checked"), (conf.get("rejections") or [{}])[0].get("detail", "")[:160]))
     return {"violations": viols, "crashes": crashes, "coverage": cov, "trace_files": traces}
 
 
